@@ -460,4 +460,91 @@ theorem depsOn_cls (h : Hierarchy) (c : Cls) : ∀ (f : Nat) (di : Option DInfo)
       · exact ih _ ds' hg d hd'
       · simp at hg
 
+/-! ### an independent description of "depends on": the closure through method-name dependencies -/
+
+/-- `DependsOn h c di k`: a function with `_dinfo = di` (`none`: undecorated), looked at from class `c`,
+depends on the key `k` — directly (one of its specs names a Parameter of `c`; an undecorated function
+names every Parameter of `c`), or through a function it names, as resolved on `c`. -/
+inductive DependsOn (h : Hierarchy) (c : Cls) : Option DInfo → Key → Prop
+  | direct (di : Option DInfo) (s : Spec) : s ∈ specsOf h c di → s.attr ∈ allParams h c →
+      DependsOn h c di ⟨s.attr, s.what⟩
+  | via (di : Option DInfo) (s : Spec) (k' : Cls) (m : Method) (key : Key) : s ∈ specsOf h c di →
+      s.attr ∉ allParams h c → resolveMethod h c s.attr = some (k', m) → DependsOn h c m.dinfo key →
+      DependsOn h c di key
+
+theorem collect_sub (g : Spec → Except Err (List PDep)) : ∀ (l : List Spec) (ds : List PDep),
+    collect g l = .ok ds → ∀ s ∈ l, ∃ ds', g s = .ok ds' ∧ ∀ d ∈ ds', d ∈ ds := by
+  intro l
+  induction l with
+  | nil => intro ds _ s hs; cases hs
+  | cons s0 rest ih =>
+    intro ds h1 s hs
+    simp only [collect] at h1
+    split at h1
+    · simp at h1
+    · rename_i a ha
+      split at h1
+      · simp at h1
+      · rename_i b hb
+        simp only [Except.ok.injEq] at h1
+        subst h1
+        rcases List.mem_cons.1 hs with rfl | hs'
+        · exact ⟨a, ha, fun d hd => List.mem_append_left _ hd⟩
+        · obtain ⟨ds', h2, h3⟩ := ih b hb s hs'
+          exact ⟨ds', h2, fun d hd => List.mem_append_right _ (h3 d hd)⟩
+
+/-- **the recursion `_params_depended_on` computes exactly the closure** (whenever it terminates
+without error, i.e. for acyclic, resolvable dependencies) -/
+theorem depsOn_iff_dependsOn (h : Hierarchy) (c : Cls) : ∀ (f : Nat) (di : Option DInfo) (ds : List PDep),
+    depsOn h c f di = .ok ds → ∀ k, k ∈ ds.map keyOf ↔ DependsOn h c di k := by
+  intro f
+  induction f with
+  | zero => intro di ds h1; simp [depsOn] at h1
+  | succ f ih =>
+    intro di ds h1 k
+    simp only [depsOn] at h1
+    constructor
+    · intro hk
+      obtain ⟨d, hd, rfl⟩ := List.mem_map.1 hk
+      obtain ⟨s, hs, ds', hg, hd'⟩ := collect_mem _ _ ds h1 d hd
+      split at hg
+      · rename_i hp
+        simp only [Except.ok.injEq] at hg
+        subst hg
+        simp at hd'
+        subst hd'
+        exact DependsOn.direct di s hs hp
+      · rename_i hp
+        split at hg
+        · rename_i k' m hr
+          exact DependsOn.via di s k' m _ hs hp hr ((ih m.dinfo ds' hg _).1 (List.mem_map.2 ⟨d, hd', rfl⟩))
+        · simp at hg
+    · intro hdep
+      -- induction on the derivation, for every fuel at which the recursion succeeded
+      have key : ∀ (di : Option DInfo) (k : Key), DependsOn h c di k → ∀ (f : Nat) (ds : List PDep),
+          depsOn h c f di = .ok ds → k ∈ ds.map keyOf := by
+        intro di k hd
+        induction hd with
+        | direct di s hs hp =>
+          intro f ds h2
+          cases f with
+          | zero => simp [depsOn] at h2
+          | succ f =>
+            simp only [depsOn] at h2
+            obtain ⟨ds', hg, hsub⟩ := collect_sub _ _ ds h2 s hs
+            simp only [hp, if_true, Except.ok.injEq] at hg
+            subst hg
+            exact List.mem_map.2 ⟨⟨c, s.attr, s.what⟩, hsub _ (by simp), rfl⟩
+        | via di s k' m key hs hp hr _ ih' =>
+          intro f ds h2
+          cases f with
+          | zero => simp [depsOn] at h2
+          | succ f =>
+            simp only [depsOn] at h2
+            obtain ⟨ds', hg, hsub⟩ := collect_sub _ _ ds h2 s hs
+            simp only [hp, if_false, hr] at hg
+            obtain ⟨d, hd, hdk⟩ := List.mem_map.1 (ih' f ds' hg)
+            exact List.mem_map.2 ⟨d, hsub d hd, hdk⟩
+      exact key di k hdep (f + 1) ds (by simp only [depsOn]; exact h1)
+
 end ParamVerif.Depends
